@@ -106,8 +106,8 @@ type CertSpec struct {
 	// Issuer: nil means self-signed with SignKey.
 	Parent  *x509.Certificate
 	SignKey *ecdsa.PrivateKey
-	// IssuerCN overrides the issuer name (for issuer-name mismatch worlds); "" = parent's subject.
-	NoSKI bool
+	// DummyExt adds an unrelated non-critical extension (keeps the extension count when there is no SGX extension).
+	DummyExt bool
 }
 
 // Issue creates the certificate and returns it parsed, plus DER.
@@ -129,6 +129,9 @@ func Issue(s CertSpec) (*x509.Certificate, []byte) {
 	}
 	if s.SgxExt != nil {
 		tmpl.ExtraExtensions = []pkix.Extension{{Id: asn1.ObjectIdentifier(OidSgx), Value: s.SgxExt}}
+	}
+	if s.DummyExt {
+		tmpl.ExtraExtensions = append(tmpl.ExtraExtensions, pkix.Extension{Id: asn1.ObjectIdentifier{1, 2, 840, 113741, 1, 99}, Value: []byte{0x05, 0x00}})
 	}
 	parent := s.Parent
 	if parent == nil {
